@@ -61,7 +61,7 @@ class PyDBML:
             if isinstance(source_, str):
                 source = source_
             elif isinstance(source_, Path):
-                with open(source_, encoding="utf8") as f:
+                with open(source_, encoding="utf8", newline="") as f:
                     source = f.read()
             elif isinstance(source_, TextIOWrapper):
                 source = source_.read()
@@ -101,7 +101,7 @@ class PyDBML:
         if isinstance(file, TextIOWrapper):
             source = file.read()
         else:
-            with open(file, encoding="utf8") as f:
+            with open(file, encoding="utf8", newline="") as f:
                 source = f.read()
         source = remove_bom(source)
         parser = PyDBMLParser(source)
